@@ -142,7 +142,7 @@ def handleLuaApi (line : String) : String :=
           | 0, st => some st
           | n + 1, st => do
             let st ← runOpsApi bus la code.length (setCyc st.cycles st.mem |> fun mm => { st with mem := mm }) (words p1)
-            let (stop, m') := Impl.runExtC (Generated.opTable model) Generated.consts model bus setCyc 5000 st.regs.pc false st
+            let (stop, m') := Impl.runExtC (Generated.opTable model) Generated.driverConsts model bus setCyc 5000 st.regs.pc false st
             if kindOf stop != "halt" then none
             let st ← runOpsApi bus la code.length m' (words p2)
             loop n st
